@@ -1034,3 +1034,199 @@ Proof.
   - unfold aval. destruct (mut_objs lv s h m) as [Ho _]. rewrite Ho.
     assert (Hn : nth_error (s_objs s) g = None) by (apply nth_error_None; exact Hge). rewrite Hn. reflexivity.
 Qed.
+
+(* ------------------------------------------------------------------ *)
+(* only client mutations write into existing lists; only header edits write into existing headers *)
+(* ------------------------------------------------------------------ *)
+Definition is_umut (u : uop) : bool := match u with UMut _ _ => true | _ => false end.
+Definition is_usethdr (u : uop) : bool := match u with USetHdr _ _ => true | _ => false end.
+
+Lemma ustep_heap_prefix : forall s u, is_umut u = false -> exists extra, s_heap (ustep s u) = s_heap s ++ extra.
+Proof.
+  intros s u H. destruct u; simpl in *; try discriminate.
+  - exists [c]. reflexivity.
+  - exists [c]. reflexivity.
+  - destruct (nth_error (s_objs s) f); simpl; [exists cs; reflexivity|exists []; rewrite app_nil_r; reflexivity].
+  - exists cs. reflexivity.
+  - exists []. rewrite app_nil_r. reflexivity.
+  - destruct (nth_error (s_objs s) f); simpl; exists []; rewrite app_nil_r; reflexivity.
+Qed.
+
+Lemma usteps_heap_prefix : forall us s, Forall (fun u => is_umut u = false) us ->
+  exists extra, s_heap (fold_left ustep us s) = s_heap s ++ extra.
+Proof.
+  induction us as [|u us IH]; intros s H; simpl.
+  - exists []. rewrite app_nil_r. reflexivity.
+  - inversion H as [|u' us' Hu Hus]; subst.
+    destruct (ustep_heap_prefix s u Hu) as [e1 E1]. destruct (IH (ustep s u) Hus) as [e2 E2].
+    exists (e1 ++ e2). rewrite E2, E1. rewrite app_assoc. reflexivity.
+Qed.
+
+Lemma ustep_hdrs_prefix : forall s u, is_usethdr u = false -> exists extra, s_hdrs (ustep s u) = s_hdrs s ++ extra.
+Proof.
+  intros s u H. destruct u; simpl in *; try discriminate;
+    try (exists []; rewrite app_nil_r; reflexivity).
+  - destruct (nth_error (s_objs s) f); simpl; exists []; rewrite app_nil_r; reflexivity.
+  - exists [hd]. reflexivity.
+Qed.
+
+Lemma usteps_hdrs_prefix : forall us s, Forall (fun u => is_usethdr u = false) us ->
+  exists extra, s_hdrs (fold_left ustep us s) = s_hdrs s ++ extra.
+Proof.
+  induction us as [|u us IH]; intros s H; simpl.
+  - exists []. rewrite app_nil_r. reflexivity.
+  - inversion H as [|u' us' Hu Hus]; subst.
+    destruct (ustep_hdrs_prefix s u Hu) as [e1 E1]. destruct (IH (ustep s u) Hus) as [e2 E2].
+    exists (e1 ++ e2). rewrite E2, E1. rewrite app_assoc. reflexivity.
+Qed.
+
+Lemma ustep_held_prefix : forall s u, exists extra, s_held (ustep s u) = s_held s ++ extra.
+Proof.
+  intros s u. destruct u; simpl; try (exists []; rewrite app_nil_r; reflexivity).
+  - eexists. reflexivity.
+  - destruct (nth_error (s_objs s) f); simpl; exists []; rewrite app_nil_r; reflexivity.
+  - eexists. reflexivity.
+  - destruct (nth_error (s_objs s) f); simpl; exists []; rewrite app_nil_r; reflexivity.
+Qed.
+
+Lemma usteps_held_prefix : forall us s, exists extra, s_held (fold_left ustep us s) = s_held s ++ extra.
+Proof.
+  induction us as [|u us IH]; intros s; simpl.
+  - exists []. rewrite app_nil_r. reflexivity.
+  - destruct (ustep_held_prefix s u) as [e1 E1]. destruct (IH (ustep s u)) as [e2 E2].
+    exists (e1 ++ e2). rewrite E2, E1. rewrite app_assoc. reflexivity.
+Qed.
+
+Ltac compile_cases :=
+  repeat match goal with
+         | |- context [match ?x with _ => _ end] => destruct x eqn:?; simpl
+         end.
+
+Lemma compile_nomut : forall lv s op, is_mut op = false -> Forall (fun u => is_umut u = false) (fst (compile lv s op)).
+Proof.
+  intros lv s op H.
+  destruct op; simpl in *; try discriminate; unfold add_cells, transform, neq_tmp;
+    compile_cases; repeat (apply Forall_app; split); repeat constructor; try (apply Forall_map_all; reflexivity).
+Qed.
+
+Lemma compile_nosethdr : forall lv s op, is_hdr_edit op = false -> Forall (fun u => is_usethdr u = false) (fst (compile lv s op)).
+Proof.
+  intros lv s op H.
+  destruct op; simpl in *; try discriminate; unfold add_cells, transform, neq_tmp;
+    compile_cases; repeat (apply Forall_app; split); repeat constructor; try (apply Forall_map_all; reflexivity).
+Qed.
+
+Lemma step_heap_prefix : forall lv s op, is_mut op = false -> exists extra, s_heap (al_step lv s op) = s_heap s ++ extra.
+Proof. intros. rewrite al_step_eq. apply usteps_heap_prefix. apply compile_nomut. assumption. Qed.
+
+Lemma step_hdrs_prefix : forall lv s op, is_hdr_edit op = false -> exists extra, s_hdrs (al_step lv s op) = s_hdrs s ++ extra.
+Proof. intros. rewrite al_step_eq. apply usteps_hdrs_prefix. apply compile_nosethdr. assumption. Qed.
+
+Lemma step_held_prefix : forall lv s op, exists extra, s_held (al_step lv s op) = s_held s ++ extra.
+Proof. intros. rewrite al_step_eq. apply usteps_held_prefix. Qed.
+
+(* the observable content of every list the client holds is the same after any operation that is not a client mutation *)
+Lemma step_arguments_unchanged : forall lv s op h l,
+  wf s -> is_mut op = false -> handle_loc s h = Some l ->
+  handle_loc (al_step lv s op) h = Some l /\ cell_val (s_heap (al_step lv s op)) l = cell_val (s_heap s) l.
+Proof.
+  intros lv s op h l W Hm Hl. split.
+  - destruct (step_held_prefix lv s op) as [e E]. unfold handle_loc in *. rewrite E. apply nth_error_app_l. exact Hl.
+  - destruct (step_heap_prefix lv s op Hm) as [e E]. rewrite E. apply cell_val_app_l.
+    + pose proof (wf_held s W) as Hb. rewrite Forall_forall in Hb. apply Hb. unfold handle_loc in Hl. eapply nth_error_In. exact Hl.
+    + apply (wf_refs s W).
+Qed.
+
+(* ------------------------------------------------------------------ *)
+(* error paths                                                          *)
+(* ------------------------------------------------------------------ *)
+Lemma collect_err_prefix : forall one hs nv nv' cs,
+  collect one nv hs = ((nv', cs), AErr) ->
+  exists n, n < List.length hs /\ collect one nv (firstn n hs) = ((nv', cs), AOk).
+Proof.
+  intros one. induction hs as [|h t IH]; intros nv nv' cs H; simpl in H; [discriminate|].
+  destruct (one h nv) as [nv1 c| |] eqn:E.
+  - destruct (collect one nv1 t) as [[nv2 cs2] r] eqn:E2. inversion H; subst.
+    destruct (IH nv1 nv' cs2 E2) as [n [Hn Hc]]. exists (S n). split; [simpl; lia|].
+    simpl. rewrite E, Hc. reflexivity.
+  - inversion H; subst. exists 0. split; [simpl; lia|reflexivity].
+  - discriminate.
+Qed.
+
+(* add_clauses_from that raises = add_clauses_from of the clauses before the rejected one *)
+Lemma clauses_from_error : forall lv s f hs check s',
+  al_exec lv s (OAddClausesFrom f hs check) = (s', AErr) ->
+  exists n, n < List.length hs /\ al_exec lv s (OAddClausesFrom f (firstn n hs) check) = (s', AOk).
+Proof.
+  intros lv s f hs check s' H. unfold al_exec in *. simpl in *.
+  destruct (nth_error (s_objs s) f) as [o|]; [|simpl in H; inversion H].
+  destruct (collect (one_clause s (okind o) check) (onumvar o) hs) as [[nv cs] r] eqn:E.
+  assert (r = AErr) by (simpl in H; destruct cs; inversion H; reflexivity). subst r.
+  destruct (collect_err_prefix _ _ _ _ _ E) as [n [Hn Hc]]. exists n. split; [exact Hn|].
+  rewrite Hc. simpl in *. destruct cs; inversion H; reflexivity.
+Qed.
+
+Lemma constraints_from_error : forall lv s f hs check s',
+  al_exec lv s (OAddConstraintsFrom f hs check) = (s', AErr) ->
+  exists n, n < List.length hs /\ al_exec lv s (OAddConstraintsFrom f (firstn n hs) check) = (s', AOk).
+Proof.
+  intros lv s f hs check s' H. unfold al_exec in *. simpl in *.
+  destruct (nth_error (s_objs s) f) as [o|]; [|simpl in H; inversion H].
+  destruct (okind o); [simpl in H; inversion H|].
+  destruct (collect (one_constraint (lv_pair lv) s check) (onumvar o) hs) as [[nv cs] r] eqn:E.
+  assert (r = AErr) by (simpl in H; destruct cs; inversion H; reflexivity). subst r.
+  destruct (collect_err_prefix _ _ _ _ _ E) as [n [Hn Hc]]. exists n. split; [exact Hn|].
+  rewrite Hc. simpl in *. destruct cs; inversion H; reflexivity.
+Qed.
+
+(* every other call that raises leaves the whole state as it was *)
+Definition single_call (op : aop) : bool :=
+  match op with OAddClausesFrom _ _ _ | OAddConstraintsFrom _ _ _ => false | _ => true end.
+
+Lemma collect_single_err : forall one nv h nv' cs, collect one nv [h] = ((nv', cs), AErr) -> cs = [].
+Proof.
+  intros one nv h nv' cs H. simpl in H. destruct (one h nv); inversion H; reflexivity.
+Qed.
+
+Ltac hyp_cases H :=
+  repeat match type of H with
+         | context [match ?x with _ => _ end] =>
+             lazymatch x with
+             | context [match _ with _ => _ end] => fail
+             | _ => destruct x eqn:?; simpl in H
+             end
+         end.
+
+Lemma error_atomic : forall lv s op s', single_call op = true -> al_exec lv s op = (s', AErr) -> s' = s.
+Proof.
+  intros lv s op s' Hs H. unfold al_exec in H.
+  destruct op; try discriminate Hs.
+  all: simpl in H; unfold transform, neq_tmp, add_cells in H; hyp_cases H; try congruence; inversion H; reflexivity.
+Qed.
+
+(* ------------------------------------------------------------------ *)
+(* a transformation that returns makes exactly one new object             *)
+(* ------------------------------------------------------------------ *)
+Lemma transform_ok_new : forall s t o us, transform s t o = (us, AOk) -> exists k nv cs hd, us = [UNewObj k nv cs hd].
+Proof.
+  intros s t o us H. unfold transform in H. destruct t.
+  - destruct (flip_polarity_spec (onumvar o) (obj_cnf s o)). inversion H. eauto.
+  - destruct (xor_substitution (onumvar o) k (obj_cnf s o)) as [[nv out]|]; inversion H. eauto.
+  - destruct (or_substitution (onumvar o) k (obj_cnf s o)) as [[nv out]|]; inversion H. eauto.
+  - destruct (sharg_of s fl); [|inversion H]. destruct (sharg_of s pm); [|inversion H].
+    destruct (sharg_of s cp); [|inversion H].
+    destruct (shuffle (onumvar o) (obj_cnf s o) s0 s1 s2); inversion H. eauto.
+Qed.
+
+Lemma transform_new_object : forall lv s t f s',
+  al_exec lv s (OTransform t f) = (s', AOk) ->
+  List.length (s_objs s') = S (List.length (s_objs s)) /\ s_held s' = s_held s.
+Proof.
+  intros lv s t f s' H. unfold al_exec in H. simpl in H.
+  destruct (nth_error (s_objs s) f) as [o|]; [|inversion H].
+  destruct (okind o); [|inversion H].
+  destruct (lits_in_range (onumvar o) (obj_cnf s o)); [|inversion H].
+  destruct (transform s t o) as [us r] eqn:E. inversion H; subst.
+  destruct (transform_ok_new _ _ _ _ E) as [k [nv [cs [hd ->]]]]. simpl.
+  rewrite app_length. simpl. split; [lia|reflexivity].
+Qed.
